@@ -655,6 +655,8 @@ def r03_7(ctx):
         if not b:
             continue
         pc = b.param_index_by_name("count")
+        import inline
+        b = inline.deep_body(lib, b)      # add_done may delegate to add_done_quiet
         good = False
         for bb, si, st in b.stmts():
             if st["k"] == "assign" and st["lhs"]["p"] and st["lhs"]["p"][-1].get("name") == fld and st["rv"]["k"] == "use":
@@ -692,11 +694,25 @@ def r02_8(ctx):
         heads = [bb for bb, t in ad.calls() if C.callee_name(t).endswith("as std::iter::Iterator>::next")]
         rets = [bb for bb in C.live(ad) if ad.term(bb)["k"] == "return"]
         incs = []
+        deferred = []     # (block incrementing a local accumulator, block adding the accumulator to the counter)
+        is_one = lambda op: has_const(C.trace(ad, op), "1_usize")
         for bb, si, st in ad.stmts():
             if st["k"] == "assign" and st["lhs"]["p"] and st["rv"]["k"] == "use" and _via_field(ad, st["lhs"], "out_edge_counts"):
                 for l in C.trace(ad, st["rv"]["op"]):
-                    if l.kind == "binop" and l.data["op"].startswith("Add") and has_const(C.trace(ad, l.data["b"]), "1_usize"):
-                        incs.append(bb)
+                    if l.kind == "binop" and l.data["op"].startswith("Add"):
+                        if is_one(l.data["b"]) or is_one(l.data["a"]):
+                            incs.append(bb)
+                            continue
+                        # `counter += n` where n is a local incremented by one per new edge
+                        for side in ("a", "b"):
+                            for l2 in C.trace(ad, l.data[side]):
+                                if l2.kind == "binop" and l2.data["op"].startswith("Add") and (is_one(l2.data["b"]) or is_one(l2.data["a"])):
+                                    deferred.append((l2.bb, bb))
+        for (ibb, fbb) in deferred:
+            # the accumulated count must reach the counter on every way out
+            after = C.after_edges(ad, out_edges(ad, [ibb]), cut=out_edges(ad, [fbb]))
+            if not any(ad.term(x)["k"] == "return" for x in after):
+                incs.append(ibb)
         sites = []
         for bb, t in ad.calls():
             nm = C.callee_name(t)
